@@ -256,7 +256,18 @@ type sliceTokenizer struct {
 }
 
 func (s *sliceTokenizer) eof() token.Token {
-	return token.Token{Type: token.EOF, Literal: "", Line: 1, Position: len(s.toks) + 1}
+	return token.Token{Type: token.EOF, Literal: "", Line: 1, Position: len(s.toks) + 1, File: "#" + strconv.Itoa(len(s.toks))}
+}
+
+// the slice tokenizer serves copies whose File field is "#<index>": a ParseError then names the
+// index of its token even where the parser rewrote the token's position (ParsePostfixExpression does)
+func tagged(ts []token.Token) []token.Token {
+	out := make([]token.Token, len(ts))
+	for i, t := range ts {
+		t.File = "#" + strconv.Itoa(i)
+		out[i] = t
+	}
+	return out
 }
 func (s *sliceTokenizer) NextToken() token.Token {
 	s.pulls++
@@ -363,7 +374,9 @@ func errKind(msg string) string {
 	return "escape"
 }
 
-func outcome(mode string, p *parser.Parser, ts []token.Token, st *sliceTokenizer) string {
+// outcome of one parse; for errors also the description of the error token (used to compare the
+// real-lexer run with the slice run)
+func outcome(mode string, p *parser.Parser, ts []token.Token, st *sliceTokenizer) (string, string) {
 	var res string
 	var err error
 	switch mode {
@@ -398,22 +411,31 @@ func outcome(mode string, p *parser.Parser, ts []token.Token, st *sliceTokenizer
 			res = fmt.Sprintf("%s %d", pxE(e), rest)
 		}
 	default:
-		return "badmode"
+		return "badmode", ""
 	}
 	if err == nil {
-		return "ok " + res
+		return "ok " + res, ""
 	}
 	pe, ok := errors.Cause(err).(*parser.ParseError)
 	if !ok {
-		return "err notoken"
+		return "err notoken", ""
 	}
-	return fmt.Sprintf("err %s %d", errKind(pe.Message), tokIndex(ts, pe.Token))
+	desc := fmt.Sprintf("%s %s %q %d %d", errKind(pe.Message), pe.Token.Type, pe.Token.Literal, pe.Token.Line, pe.Token.Position)
+	if pe.Token.Type == token.EOF {
+		desc = errKind(pe.Message) + " EOF"
+	}
+	return fmt.Sprintf("err %s %d", errKind(pe.Message), tokIndex(ts, pe.Token)), desc
 }
 
 // index of a token in the significant stream (EOF and unknown tokens: len)
 func tokIndex(ts []token.Token, t token.Token) int {
 	if t.Type == token.EOF {
 		return len(ts)
+	}
+	if strings.HasPrefix(t.File, "#") {
+		if i, err := strconv.Atoi(t.File[1:]); err == nil {
+			return i
+		}
 	}
 	for i := range ts {
 		if ts[i].Line == t.Line && ts[i].Position == t.Position && ts[i].Type == t.Type && ts[i].Literal == t.Literal {
@@ -440,25 +462,27 @@ func init() {
 				return "badreq"
 			}
 			ts := significant(string(b))
-			var st *sliceTokenizer
-			var p *parser.Parser
-			if f[1] == "expr" {
-				// expression mode: the same token stream through the slice tokenizer (needed to
-				// know how many tokens ParseExpression left unread)
-				st = &sliceTokenizer{toks: ts}
-				p = parser.New(st)
-			} else {
-				p = parser.New(lexer.NewFromString(string(b)))
+			// the same stream through the slice tokenizer: exact index of an error token, number of
+			// tokens an expression leaves unread
+			st := &sliceTokenizer{toks: tagged(ts)}
+			out, desc := outcome(f[1], parser.New(st), ts, st)
+			if f[1] != "expr" {
+				// the real path: parser driven by the real lexer; must give the same tree / the same error
+				// class on the same token (this also validates the ReadPeek filter of `significant`)
+				real, rdesc := outcome(f[1], parser.New(lexer.NewFromString(string(b))), ts, nil)
+				if strings.HasPrefix(out, "ok") != strings.HasPrefix(real, "ok") || (strings.HasPrefix(out, "ok") && out != real) || desc != rdesc {
+					return "srcmismatch real=" + real + " [" + rdesc + "] slice=" + out + " [" + desc + "]"
+				}
 			}
-			return renderToks(ts) + " | " + floatOracle(ts) + " | " + outcome(f[1], p, ts, st)
+			return renderToks(ts) + " | " + floatOracle(ts) + " | " + out
 		case "toks":
 			ts, err := parseToks(arg)
 			if err != nil {
 				return "badreq " + err.Error()
 			}
-			st := &sliceTokenizer{toks: ts}
-			p := parser.New(st)
-			return renderToks(ts) + " | " + floatOracle(ts) + " | " + outcome(f[1], p, ts, st)
+			st := &sliceTokenizer{toks: tagged(ts)}
+			out, _ := outcome(f[1], parser.New(st), ts, st)
+			return renderToks(ts) + " | " + floatOracle(ts) + " | " + out
 		}
 		return "badreq"
 	})
